@@ -515,7 +515,30 @@ def d4_whole_file_rewrites(ctx):
                'write_jsonfile does not stream json.dump into the open file',
                detail='json.dump(data, fp) serialises while the truncated file is open: a TypeError or a '
                       'crash midway leaves a half-written descriptor/metadata file')
-    if not opens:
+    # a rewrite through a non-truncating handle ('r+') is never a whole-file rewrite: torn, it leaves a prefix of the new
+    # text followed by the tail of the old one, which often parses — a state that is neither "before" nor "after"
+    inplace = [e for e in ctx.E.primitives(wj) if e.kind in ('UPDATE-OPEN', 'APPEND-OPEN')]
+    for e in ctx.E.primitives(wj):
+        # a mode held in a local: every constant it can be bound to is looked at
+        if e.kind in ('MODE-OPEN', 'OPEN-DYNAMIC') and isinstance(e.node, ast.Call):
+            m = get_arg(e.node, 1, 'mode') if (dotted(e.node.func) or '') in ('open', 'io.open') else get_arg(e.node, 0, 'mode')
+            if isinstance(m, ast.Name):
+                vals = [v for v, _ in defs_of(wj.node, m.id)]
+                flat = []
+                for v in vals:
+                    flat += [v.body, v.orelse] if isinstance(v, ast.IfExp) else [v]
+                consts = [v.value for v in flat if isinstance(v, ast.Constant) and isinstance(v.value, str)]
+                if consts and len(consts) == len(flat):
+                    if any('w' not in c and 'x' not in c and ('+' in c or 'a' in c) for c in consts):
+                        inplace.append(e)
+                    if any('w' in c for c in consts):
+                        opens.append(e)
+    for e in inplace:
+        ctx.bad('R-ORDER', 'D4', wj, e.node, 'rewrite-truncates-first',
+                'write_jsonfile rewrites by truncating the file first (a torn write leaves a prefix of the new text, which does not parse)',
+                detail=f'`{norm(e.node)[:60]}` rewrites in place: a torn write leaves new text followed by the tail of the old '
+                       f'text, which can be valid JSON mixing old and new values')
+    if not opens and not inplace:
         raise AnalysisError('write_jsonfile: truncating open vanished')
     for o in opens:
         ctx.decide(bool(dumps) and must_precede(wj, o.node, dumps), 'R-ORDER', 'D4', wj, o.node,
